@@ -26,8 +26,18 @@ func c08(e *Env) {
 	if g == nil {
 		return
 	}
+	// helpers of whatever type represents the started-task queue are looked through: module functions that return a
+	// channel (the Done to wait for) or a *Task (the head)
 	expandTQ := func(f *ssa.Function) bool {
-		return f.Signature.Recv() != nil && typeNameOf(f.Signature.Recv().Type()) == "taskQueue"
+		if f.Signature.Recv() != nil && typeNameOf(f.Signature.Recv().Type()) == "taskQueue" {
+			return true
+		}
+		if !p.IsRepo(f) || f.Signature.Results().Len() != 1 {
+			return false
+		}
+		rt := f.Signature.Results().At(0).Type()
+		_, isChan := rt.Underlying().(*types.Chan)
+		return isChan || isPtrToNamed(rt, "Task")
 	}
 	sy := p.NewSymbolizer(expandTQ)
 	// ---- R1 queue idiom
@@ -111,7 +121,19 @@ func c08(e *Env) {
 			hasPop = true
 		}
 	}
+	if len(bad) > 0 || !hasAppend || !hasPop {
+		// the queue may be held by something else than a loop-carried slice (a queue object with push/pop methods):
+		// judge the operations on []*Task in Process.Run's call tree by what they are
+		if why, okT := e.queueOpsFIFO(g); okT {
+			ob1.OK(g.Where(selNode), why)
+			bad, hasAppend, hasPop = nil, true, true
+		} else if why != "" {
+			ob1.Fail(g.Where(selNode), why)
+			bad, hasAppend, hasPop = nil, true, true
+		}
+	}
 	switch {
+	case ob1.Sites > 0 || ob1.Status == core.Violated:
 	case len(bad) > 0:
 		ob1.Fail(g.Where(selNode), "the queue is also updated as "+trunc(strings.Join(bad, " | "), 300)+" - not a FIFO update")
 	case !hasAppend || !hasPop:
@@ -257,4 +279,128 @@ func trunc(s string, n int) string {
 		return s[:n] + "…"
 	}
 	return s
+}
+
+// queueOpsFIFO: representation-independent form of the queue idiom. Every operation on a []*Task in Process.Run's
+// expanded call tree is classified: append(q, <task received from the feed>) at the tail, q[0] as the only element
+// read, q[1:] as the only re-slice; every []*Task value that is stored or merged is the result of one of these (or
+// empty). Returns (description, true) when all are FIFO operations and push, head and pop all occur; ("", false)
+// when no []*Task operation exists at all (not this representation); (reason, false) otherwise.
+func (e *Env) queueOpsFIFO(g *core.XG) (string, bool) {
+	isQ := func(t types.Type) bool {
+		sl, ok := t.Underlying().(*types.Slice)
+		return ok && isPtrToNamed(sl.Elem(), "Task")
+	}
+	xs := e.xsym()
+	isConst := func(v ssa.Value, want int64) bool {
+		k, ok := v.(*ssa.Const)
+		return ok && k.Value != nil && k.Int64() == want
+	}
+	fifoVal := map[ssa.Value]bool{}
+	nPush, nHead, nPop := 0, 0, 0
+	for _, n := range g.Nodes {
+		if n.Kind == core.KAfter || n.Instr == nil {
+			continue
+		}
+		switch x := n.Instr.(type) {
+		case *ssa.Call:
+			if n.IsBuiltin("append") && len(x.Call.Args) == 2 && isQ(x.Call.Args[0].Type()) {
+				// the appended elements: a one-element varargs array holding the task just received
+				el, ok := x.Call.Args[1].(*ssa.Slice)
+				if !ok {
+					return "a whole []*Task is appended to the queue at " + g.Where(n) + " (tasks are not added one by one at the tail)", false
+				}
+				if al, ok := el.X.(*ssa.Alloc); !ok || al.Comment != "varargs" {
+					return "a whole []*Task is appended to the queue at " + g.Where(n) + " (tasks are not added one by one at the tail)", false
+				}
+				if lit, ok := x.Call.Args[0].(*ssa.Slice); ok {
+					if _, isAl := lit.X.(*ssa.Alloc); isAl {
+						return "the queue is rebuilt from a literal at " + g.Where(n) + " (the new task does not go to the tail)", false
+					}
+				}
+				s := xs.InCtx(n.Ctx, x.Call.Args[1]).String()
+				if !strings.Contains(s, "recv(") {
+					return "the element appended to the queue at " + g.Where(n) + " is not the task received from the feed channel: " + trunc(s, 80), false
+				}
+				nPush++
+				fifoVal[x] = true
+			}
+		case *ssa.IndexAddr:
+			if isQ(x.X.Type()) {
+				if !isConst(x.Index, 0) {
+					return "queue element " + trunc(xs.InCtx(n.Ctx, x.Index).String(), 60) + " is read at " + g.Where(n) + ", not element 0 (the oldest started task)", false
+				}
+				nHead++
+			}
+		case *ssa.Index:
+			if isQ(x.X.Type()) {
+				if !isConst(x.Index, 0) {
+					return "queue element " + trunc(xs.InCtx(n.Ctx, x.Index).String(), 60) + " is read at " + g.Where(n) + ", not element 0 (the oldest started task)", false
+				}
+				nHead++
+			}
+		case *ssa.Slice:
+			if isQ(x.X.Type()) && isQ(x.Type()) {
+				if x.Low == nil || !isConst(x.Low, 1) || x.High != nil || x.Max != nil {
+					return "the queue is re-sliced at " + g.Where(n) + " other than [1:] (the oldest task is not the one removed)", false
+				}
+				nPop++
+				fifoVal[x] = true
+			}
+		case *ssa.Range:
+			if isQ(x.X.Type()) {
+				return "the queue is ranged over at " + g.Where(n) + " (tasks other than the oldest are looked at)", false
+			}
+		}
+	}
+	if nPush+nHead+nPop == 0 {
+		return "", false
+	}
+	// what may be stored into / merged as a queue value
+	okVal := func(v ssa.Value) bool {
+		switch y := v.(type) {
+		case *ssa.Const:
+			return y.Value == nil
+		case *ssa.Phi, *ssa.UnOp, *ssa.Parameter, *ssa.FreeVar, *ssa.Extract:
+			return true // a queue value read or passed on unchanged
+		case *ssa.MakeSlice:
+			return isConst(y.Len, 0)
+		case *ssa.Slice:
+			if fifoVal[v] {
+				return true
+			}
+			if al, ok := y.X.(*ssa.Alloc); ok && y.Low == nil && y.High == nil {
+				if at, ok := deref2(al.Type()).Underlying().(*types.Array); ok && at.Len() == 0 {
+					return true // []*Task{}
+				}
+			}
+			return false
+		}
+		return fifoVal[v]
+	}
+	for _, n := range g.Nodes {
+		if n.Kind == core.KAfter || n.Instr == nil {
+			continue
+		}
+		if st, ok := n.Instr.(*ssa.Store); ok && isQ(st.Val.Type()) && !okVal(st.Val) {
+			return "a queue value that is neither the tail append nor the [1:] re-slice is stored at " + g.Where(n), false
+		}
+	}
+	for _, c := range g.Ctxs {
+		for _, b := range c.Fn.Blocks {
+			for _, in := range b.Instrs {
+				if ph, ok := in.(*ssa.Phi); ok && isQ(ph.Type()) {
+					for _, ev := range ph.Edges {
+						if !okVal(ev) {
+							return "the queue variable is merged with a value that is neither the tail append nor the [1:] re-slice (" + e.P.InstrPos(ph) + ")", false
+						}
+					}
+				}
+			}
+		}
+	}
+	if nPush == 0 || nHead == 0 || nPop == 0 {
+		return fmt.Sprintf("queue operations found: %d tail appends, %d reads of element 0, %d [1:] re-slices; all three are required", nPush, nHead, nPop), false
+	}
+	return fmt.Sprintf("queue operations by kind: %d tail append(s) of the received task, %d read(s) of element 0, %d [1:] re-slice(s), nothing else", nPush, nHead, nPop), true
 }
